@@ -40,7 +40,7 @@ python3 - "$ID" "$PROP" "$NEEDS" "$SUITE" "$WITH" "$WITHOUT" "$DET" "$CRATE" <<'
 import json,sys,subprocess
 id,prop,needs,suite,w,wo,det,crate=sys.argv[1:9]
 head=subprocess.check_output(["git","-C","/repo","rev-parse","--short","HEAD"],text=True).strip()
-d={"id":id,"property":prop,"source":"fresh sub-agent given only the property text and its own scratch worktree (wave 9, hard mode)",
+d={"id":id,"property":prop,"source":"fresh sub-agent given only the property text and its own scratch worktree (wave %s, hard mode)" % __import__("os").environ.get("WAVE","11"),
    "needs_to_manifest":needs,
    "confirmed_by_coordinator":f"lib/mutant_intake.sh: cargo test --workspace --no-fail-fast --offline at /repo {head} + patch (demo aside): {suite}; demo ({crate}/tests/test_mut_demo.rs) with change: {w}; without: {wo}",
    "detected_by":det,
